@@ -13,7 +13,8 @@ import seqcheck as sc
 PROP = 'C01'
 TYPES = ('Mean', 'Variance')
 RULE = ('Sequences from 10 shape families x scale 1e-28..1e28 x common offset up to 1e12 spreads, each in '
-        '>=3 orderings, fed one at a time to Mean and Variance; the estimator is observed after every add '
+        '>=3 orderings, fed one at a time to Mean and Variance (a fifth of the cases through the Estimate trait, as generic '
+        'code would, the rest by method syntax); the estimator is observed after every add '
         '(n<=64) or at geometric checkpoints, and every accessor is compared with the exact rational '
         'statistics of the prefix within the DESIGN.md section-2 envelope. distinct_nontrivial = distinct '
         '(type, program) cases with at least one checked state having n>=2, sigma>0, inside the '
@@ -46,7 +47,9 @@ def shard(desc):
                     t = 'MeanWithError'
                 m = dict(meta)
                 m['order'] = oname
-                c, marks = sc.prefix_case('%s-%d' % (desc['name'], cid), t, ys, meta=m)
+                c, marks = sc.prefix_case('%s-%d' % (desc['name'], cid), t, ys, meta=m, via_trait=rng.random() < 0.2)
+                if c.meta.get('add'):
+                    res.count('cases_added_through_trait')
                 cid += 1
                 cases.append(c)
                 plan.append((c, marks, oracle, 'Variance' if t == 'MeanWithError' else t))
@@ -140,4 +143,4 @@ def run(tier, seed):
     except common.Inconclusive as e:
         total.inconclusive.append(str(e))
     return common.finish(PROP, tier, seed, total, RULE, t0, ASSUME,
-                         min_events={'nontrivial_states': 1000, 'ladder_points': 39, 'bigcount_states_above_2^32': 20}, extra=extra)
+                         min_events={'cases_added_through_trait': 100, 'nontrivial_states': 1000, 'ladder_points': 39, 'bigcount_states_above_2^32': 20}, extra=extra)
